@@ -40,7 +40,7 @@ func (fv *FuncVerifier) evalCall(st *State, e *ast.CallExpr) []Val {
 		fv.curPos = e.Pos()
 	}
 	// call-site key for "after <callee>#k assert ..." directives
-	if len(fv.contract.Asserts) > 0 {
+	if len(fv.contract.Asserts) > 0 || len(fv.contract.Befores) > 0 {
 		name := ""
 		switch f := unparen(e.Fun).(type) {
 		case *ast.Ident:
@@ -58,6 +58,17 @@ func (fv *FuncVerifier) evalCall(st *State, e *ast.CallExpr) []Val {
 			k := fv.siteOcc[name]
 			fv.siteOcc[name] = k + 1
 			key := fmt.Sprintf("%s#%d", name, k)
+			if cls, ok := fv.contract.Befores[key]; ok {
+				var errs []string
+				for i, cl := range cls {
+					g := fv.ownEnvAt(st, &errs, e.Pos()).eval(cl.Expr)
+					fv.oblige(st, "assert", fmt.Sprintf("before %s [%s] %s", key, clauseName(cl, i), cl.Text), g.T)
+					fv.assume(st, g.T)
+				}
+				if len(errs) > 0 {
+					fv.unsupported("spec errors in before-assert: " + strings.Join(errs, "; "))
+				}
+			}
 			if _, ok := fv.contract.Asserts[key]; ok {
 				defer func() { fv.pendingAsserts = append(fv.pendingAsserts, key) }()
 			}
@@ -88,6 +99,9 @@ func (fv *FuncVerifier) evalCall(st *State, e *ast.CallExpr) []Val {
 		return fv.callUnknown(st, e, nil, "call through function value "+fv.exprText(e.Fun))
 	}
 	full := fn.FullName()
+	if strings.HasPrefix(full, "(*sync.Mutex).") || strings.HasPrefix(full, "(*sync.RWMutex).") {
+		return fv.lockModel(st, full, e)
+	}
 	// receiver
 	var recv *Val
 	if sel, ok := unparen(e.Fun).(*ast.SelectorExpr); ok {
@@ -720,6 +734,7 @@ func (fv *FuncVerifier) callContract(st *State, e *ast.CallExpr, fn *types.Func,
 		v = fv.convertAssign(st, v, tys[i])
 		v.T = fv.nameTerm(st, v.T, sc.sortOf(tys[i]))
 		vars[names[i]] = Val{T: v.T, Ty: tys[i]}
+		vars[fmt.Sprintf("arg%d", i)] = vars[names[i]]
 	}
 	if recv != nil && sig.Recv() != nil {
 		rn := sig.Recv().Name()
